@@ -234,7 +234,7 @@ def judge(hid, line, lifetimes, h, mline, synth_val, project="full"):
             J["c01"].append(dict(case=case, what=f"process died ({h['child']}) calling a faked function at L{r.l} {r.tag}"))
     # ---- C05: panics, aborts, lock; C06/C07: the counting semantics, lifetime by lifetime
     if h["child"] and h["child"].startswith("signal:"):
-        J["c05"].append(dict(case=case, what=f"process terminated by {h['child']} (abort or crash) during the history"))
+        J["c05"].append(dict(case=case, what=f"process terminated by {h['child']} during the history" + (" (blocked until the watchdog's deadline: a guard that is never handed over)" if h["child"] == "signal:14" else " (abort or crash)")))
     import reallib as RL
     prev_exit = None
     for li, ops in enumerate(lifetimes):
@@ -315,11 +315,14 @@ def check_histories(res, prop_key, n, seed, project, max_lifetimes=3, extra_line
         cases.append((gen or gen_history)(r, f"h{i}", max_lifetimes=max_lifetimes))
     H = run_hist(exe, [c[0] for c in cases], novals=novals, nodiff=nodiff)
     mlines, meta = [], {}
+    skipped = []
     for line, lts in cases:
         hid = line.split()[0]
         if hid not in H: res.broke("correspondence: no output for history", line); continue
+        if (H[hid].get("child") or "").startswith("skipped"): skipped.append(hid); continue
         ml, sv, addr = reallib.model_line(hid, H[hid], lts, lifo=lifo)
         mlines.append(ml); meta[hid] = (line, lts, sv)
+    if skipped: res.broke(f"{len(skipped)} histories were not run because two earlier histories of their batch blocked until the watchdog killed them (signal:14)", ",".join(skipped[:20]))
     M = vlib.run_model(mlines)
     shapes = set(); crashed = 0; corr = []
     for hid, (line, lts, sv) in meta.items():
